@@ -61,6 +61,8 @@ def dimarg(dr, dc, form):
 def sysarg(S, form):
     if form == "int":
         return int(S[0])
+    if form == "np.int64":
+        return np.int64(S[0])
     if form == "array":
         return np.array(S)
     return list(S)
@@ -227,6 +229,13 @@ def obligations(tier):
                     obs.append(ob_def(dr, dc, S, "array", "array" if len(S) > 1 else "int"))
                     if dr < dc:
                         obs.append(ob_algebra(dr, dc, S))
+    # the empty set (nothing is transposed) and a numpy integer as S
+    for d in [(2, 2), (2, 3), (2, 2, 2)]:
+        for sform in ("list", "array"):
+            obs.append(ob_def(d, d, [], "flat", sform))
+        obs.append(ob_def(d, d, [len(d) - 1], "flat", "np.int64"))
+    obs.append(ob_def((2, 3), (3, 2), [], "2row", "list"))
+    obs.append(ob_def((2, 3), (3, 2), [0], "2row", "np.int64"))
     # many subsystems (9..17), all but two or three of dimension 1 (orderings of unordered containers, digit arithmetic)
     many = [([1, 2, 1, 1, 1, 1, 1, 1, 2], [1]), ([1, 2, 1, 1, 1, 1, 1, 1, 3], [8, 0, 3]), ([2, 1, 1, 1, 1, 1, 1, 1, 3, 1], [0, 9]),
             ([1, 3, 1, 1, 1, 1, 1, 1, 2, 1], [8]), ([1, 1, 2, 1, 1, 1, 1, 1, 1, 1, 1, 1, 1, 1, 1, 1, 3], [16, 5])]
